@@ -6,6 +6,7 @@
 //   off knots:  bit-identical;   at knots: within 64 eps x ordinate scale of both neighbouring segments;
 //   prefactor history on the used object: exactly P x the unit-prefactor answer (Integrate: within its rounding tolerance).
 #include "interp_common.hpp"
+#include <memory>
 
 #include "libphysica/Numerics.hpp"
 
@@ -267,6 +268,27 @@ static void case_history(Rng& rng, uint64_t index)
 			else
 				pool[1 + rng.below(pool.size() - 1)] = c;
 		}
+		else if(u < 0.985)
+		{	// a copy must not depend on its source staying alive: copy (construct or assign) from a heap object, destroy the source, let the allocator hand its
+			// blocks out again with other contents, then the copy joins the pool (seeded change C09-r3m1 kept a raw pointer into the source's table)
+			auto src = std::unique_ptr<Interpolation>(new Interpolation(construct(T)));
+			src->Set_Prefactor(U.P);
+			Used c {rng.coin() ? Interpolation(*src) : construct(T), U.P};
+			c.obj = *src;
+			src.reset();
+			std::vector<std::vector<double>> junk(6, std::vector<double>((size_t) N, -1.0e300));
+			double q	= W.next_query();
+			double got	= c.obj.Interpolate(q);
+			Interpolation F = fresh(op);
+			double ref	= U.P * F.Interpolate(q);
+			if(!W.is_knot)
+				require("interpolate-bit-identical-to-fresh-object-off-knots", eqbits(got, ref), [&] { return J().d("x", q).d("copy_of_destroyed_source", got).d("prefactor_times_fresh", ref).d("prefactor", U.P).i("op", (long long) op); });
+			if(pool.size() < 5)
+				pool.push_back(c);
+			else
+				pool[1 + rng.below(pool.size() - 1)] = c;
+			(void) junk;
+		}
 		else
 		{	// assignment between used objects
 			size_t a = rng.below(pool.size()), b = rng.below(pool.size());
@@ -386,13 +408,33 @@ static void case_history_2d(Rng& rng, uint64_t index)
 			else
 				U.obj.Set_Prefactor(fct), U.P = fct;
 		}
-		else if(u < 0.96)
+		else if(u < 0.95)
 		{
 			Used c {Interpolation_2D(U.obj), U.P};
 			if(pool.size() < 4)
 				pool.push_back(c);
 			else
 				pool[1 + rng.below(pool.size() - 1)] = c;
+		}
+		else if(u < 0.965)
+		{	// copy of a heap object whose source is destroyed and whose memory is handed out again (see the 1D case)
+			auto src = std::unique_ptr<Interpolation_2D>(new Interpolation_2D(x, y, f));
+			src->Set_Prefactor(U.P);
+			Used c {rng.coin() ? Interpolation_2D(*src) : Interpolation_2D(x, y, f), U.P};
+			c.obj = *src;
+			src.reset();
+			std::vector<std::vector<double>> junk(8, std::vector<double>((size_t) std::max(Nx, Ny), -1.0e300));
+			bool lx, ly;
+			double qx = axis_query(x, px, lx), qy = axis_query(y, py, ly);
+			double got = c.obj.Interpolate(qx, qy);
+			double ref = U.P * Interpolation_2D(x, y, f).Interpolate(qx, qy);
+			if(!lx && !ly)
+				require("2d-interpolate-bit-identical-to-fresh-object-off-grid-lines", eqbits(got, ref), [&] { return J().d("x", qx).d("y", qy).d("copy_of_destroyed_source", got).d("prefactor_times_fresh", ref).d("prefactor", U.P).i("op", (long long) op); });
+			if(pool.size() < 4)
+				pool.push_back(c);
+			else
+				pool[1 + rng.below(pool.size() - 1)] = c;
+			(void) junk;
 		}
 		else
 		{
